@@ -678,6 +678,7 @@ type BerCase struct {
 	Top     string        `json:"top"` // shape: "struct" | "choice" | "slice"
 	Val     string        `json:"val"` // prim: explicit decimal value / length
 	N       int           `json:"n"`
+	Bytes   []int         `json:"bytes"` // foreign: a valid encoding written by the reference (a type the codec cannot encode)
 }
 
 var innerStruct = reflect.StructOf([]reflect.StructField{
@@ -1398,6 +1399,57 @@ func RunBer(in, out string) error {
 					if !any {
 						break
 					}
+				}
+			}
+		case "foreign":
+			// a valid OBJECT IDENTIFIER from the reference, bare and where the schema places one (ManagementExtension inside
+			// the record extensions of a CHF record); every mutation class plus each bit of the last two content octets
+			valid := make([]byte, len(c.Bytes))
+			for i, x := range c.Bytes {
+				valid[i] = byte(x)
+			}
+			wrap := func(id []byte, content []byte) []byte {
+				out := append([]byte{}, id...)
+				if len(content) < 128 {
+					out = append(out, byte(len(content)))
+				} else {
+					out = append(out, 0x81, byte(len(content)))
+				}
+				return append(out, content...)
+			}
+			forms := map[string]func(oid []byte) []byte{
+				"oid":                  func(oid []byte) []byte { return oid },
+				"ManagementExtension":  func(oid []byte) []byte { return wrap([]byte{0x30}, append(append([]byte{}, oid...), 0xa2, 0x02, 0x05, 0x00)) },
+				"ManagementExtensions": func(oid []byte) []byte { return wrap([]byte{0x31}, wrap([]byte{0x30}, oid)) },
+				"CHFRecord":            func(oid []byte) []byte { return wrap([]byte{0xbf, 0x81, 0x48}, wrap([]byte{0xac}, wrap([]byte{0x30}, oid))) },
+			}
+			var inputs [][]byte
+			inputs = append(inputs, valid)
+			for k := 1; k <= 2 && k < len(valid)-1; k++ {
+				for bit := uint(0); bit < 8; bit++ {
+					m := append([]byte{}, valid...)
+					m[len(m)-k] ^= 1 << bit
+					inputs = append(inputs, m)
+				}
+			}
+			muts := mutations(valid, rnd)
+			for _, cls := range []string{"trunc", "len", "flip", "flipc"} {
+				for i, m := range muts[cls] {
+					if i < 24 {
+						inputs = append(inputs, m)
+					}
+				}
+			}
+			for _, tn := range []string{"oid", "ManagementExtension", "ManagementExtensions", "CHFRecord"} {
+				t, ok := SchemaTypes[tn]
+				if tn == "oid" {
+					t, ok = prims["oid"], true
+				}
+				if !ok {
+					continue
+				}
+				for _, in := range inputs {
+					r.decodeOnly(c, "foreign", forms[tn](in), t, tn, "")
 				}
 			}
 		case "fuzz":
